@@ -134,7 +134,9 @@ func suiteShimURL(e *vh.Env) {
 		}
 	}
 	// paths outside the shim prefix reach the wrapped handler untouched
-	for i, p := range []string{"/", "/a", "/shimpathx/open", "/shimpat", "/x/shimpath/open", "/a%2Fb?x=1", "/shimpath.html"} {
+	for i, p := range []string{"/", "/a", "/shimpathx/open", "/shimpat", "/x/shimpath/open", "/a%2Fb?x=1", "/shimpath.html",
+		// not in canonical form: passed on as they are, not answered by a router's own redirect
+		"/a//b", "/a/./b", "/a/../b?x=1", "//a", "/a/b/..", "/shimpath", "/x/../shimpath/open", "/a/%2e%2e/b"} {
 		for _, m := range []string{"GET", "POST"} {
 			body := []byte(nil)
 			if m == "POST" {
